@@ -778,6 +778,10 @@ pub fn random_op(w: &World, r: &mut Rng, profile: &str) -> Op {
         "<a xmlns='u1' xmlns:p='u2' p:b='1'><p:c/> <b xml:space='preserve'> </b></a>",
         "<a xml:id='i1'><b xml:id='i2'/>t</a>",
         "<!--c--><a b='1' c='2'>x<?pi d?></a><?q?>",
+        // not well-formed: must be refused (accepting them would put duplicate keys into the forest)
+        "<r xmlns:a='u1' xmlns:b='u1'><e a:x='1' b:x='2'/></r>",
+        "<r xmlns:a='u1' xmlns:a='u2'/>",
+        "<r a='1' a='2'/>",
     ];
     if r.chance(1, 4) {
         Op::new("parse_fragment", &[]).s("x<a/>y<b>z</b>")
@@ -841,4 +845,73 @@ pub fn all_ops(w: &World, full: bool) -> Vec<Op> {
     v.push(Op::new("new_element", &[]).name("", "b"));
     v.push(Op::new("set_cons", &[]).b(!w.cons));
     v
+}
+
+/// The construction World::build performs, as an episode of ordinary forest events (appended to the file named by
+/// XV_BUILDFAIL).  Used when the rebuilt state does not read back as intended.
+pub fn log_build_episode(st: &J) {
+    let path = match std::env::var("XV_BUILDFAIL") {
+        Ok(p) => p,
+        Err(_) => return,
+    };
+    use std::io::Write;
+    let mut f = match std::fs::OpenOptions::new().create(true).append(true).open(&path) {
+        Ok(f) => f,
+        Err(_) => return,
+    };
+    let mut w = World::new();
+    let reset = {
+        let post = w.project(None);
+        let mut ev = Op::new("reset", &[]).to_json();
+        let m = ev.as_object_mut().unwrap();
+        for (k, v) in [("res", json!("ok")), ("ret", json!(0)), ("rv", json!([])), ("has", json!(false)), ("rvs", json!("")), ("back", json!(0)),
+                       ("views", json!([])), ("mid", json!({"n": [], "cons": true}))] {
+            m.insert(k.into(), v);
+        }
+        let none = json!({"has": false, "res": "na", "re": "na", "root": 0, "retree": {"n": [], "cons": true, "eo": false, "rs": [], "bad": ""}, "reroot": 0, "text": []});
+        m.insert("spre".into(), none.clone());
+        m.insert("spost".into(), none);
+        m.insert("post".into(), post);
+        ev
+    };
+    let _ = writeln!(f, "{}", reset);
+    let mut ops: Vec<Op> = vec![Op::new("set_cons", &[]).b(false)];
+    let nodes = st["n"].as_array().cloned().unwrap_or_default();
+    for nd in &nodes {
+        let s = |k: &str| nd[k].as_str().unwrap_or("").to_string();
+        let t = from_cps(&nd["t"]);
+        ops.push(match nd["k"].as_str().unwrap_or("") {
+            "doc" => Op::new("new_document", &[]),
+            "elem" => Op::new("new_element", &[]).name(&s("ns"), &s("ln")),
+            "text" => Op::new("new_text", &[]).s(&t),
+            "comm" => Op::new("new_comment", &[]).s(&t),
+            "pi" => Op::new("new_pi", &[]).name(&s("ns"), &s("ln")).s(&t).b(nd["d"].as_bool().unwrap_or(false)),
+            "attr" => Op::new("new_attribute_node", &[]).name(&s("ns"), &s("ln")).s(&t),
+            "nsn" => Op::new("new_namespace_node", &[]).pxuri(&s("ln"), &s("u")),
+            _ => Op::new("new_text", &[]).s("removed"),
+        });
+    }
+    for (i, nd) in nodes.iter().enumerate() {
+        for c in nd["c"].as_array().cloned().unwrap_or_default() {
+            ops.push(Op::new("any_append", &[i + 1, c.as_u64().unwrap_or(0) as usize]));
+        }
+    }
+    for (i, nd) in nodes.iter().enumerate() {
+        if nd["k"].as_str() == Some("rm") {
+            ops.push(Op::new("remove", &[i + 1]));
+        }
+    }
+    ops.push(Op::new("set_cons", &[]).b(st["cons"].as_bool().unwrap_or(true)));
+    for o in ops {
+        if o.a.iter().any(|i| *i == 0 || *i > w.handles.len()) {
+            break;
+        }
+        let mut ev = step(&mut w, &o);
+        ev.as_object_mut().unwrap().insert("back".into(), json!(1));
+        let bad = ev["res"] == "panic" || w.corrupt;
+        let _ = writeln!(f, "{}", ev);
+        if bad {
+            break;
+        }
+    }
 }
